@@ -66,6 +66,7 @@ def plan(tier, seed):
     mods = sorted(["planar", "spatial", "lorentz"])
     specs += [{"part": "failpoints", "pkg": p} for p in mods]
     specs += [{"part": "threads", "mode": m, "rep": k} for m in ("whole", "partition", "contend", "lazy-import") for k in range(2 if tier == "quick" else 6)]
+    specs += [{"part": "order", "order": o, "rep": k} for k in range(1 if tier == "quick" else 3) for o in ("forward", "reverse", "shuffled-a", "shuffled-b")]
     return specs
 
 
@@ -632,6 +633,8 @@ def fingerprint(x):
 
     if isinstance(x, BaseException):
         return ("exc", type(x).__name__, str(x)[:80])
+    if isinstance(x, tuple):
+        return ("tuple",) + tuple(fingerprint(e) for e in x)
     if isinstance(x, VectorObject):
         s, st = B.obj_stored(x)
         return ("obj", type(x).__name__, s, tuple(B.bits(v) for v in st))
@@ -642,6 +645,9 @@ def fingerprint(x):
         a = numpy.asarray(x).view(numpy.ndarray)
         return ("np", type(x).__name__, str(a.dtype), a.shape, a.tobytes())
     return ("scalar", B.bits(x) if isinstance(x, (float, numpy.floating)) else repr(x))
+
+
+EXTRA_NAMES = ("charge", None, "index", "w3", None, "iso", "charge", "tag")
 
 
 def build_call_list(seed, k):
@@ -671,7 +677,14 @@ def build_call_list(seed, k):
             if kind == "numpy":
                 return B.mk_numpy_cls(ls[0].system, rows, ls[0].momentum)
             me = ls[0].momentum and any(B.MOM_SPELL[x] for x in R.field_names(ls[0].system))
-            return awk.build(ls[0].system, rows, me, [[0, 1], [], [2, 3]], route="zip")
+            arr = awk.build(ls[0].system, rows, me, [[0, 1], [], [2, 3]], route="zip")
+            # a non-coordinate field whose *name* differs from call to call (charge, index, w3, ...): nothing a call
+            # does with one array's extra fields may show in another call's result
+            import awkward as ak
+            nm = EXTRA_NAMES[len(calls) % len(EXTRA_NAMES)]
+            if nm:
+                arr = ak.with_field(arr, arr[ak.fields(arr)[0]] * 0 + len(calls), where=nm)
+            return arr
         try:
             v = mk([c[0] for c in cases])
             a = list(plain)
@@ -727,8 +740,15 @@ def build_contention_list(seed, nargs=16, small=False):
             if dim == 4:
                 fams += [("boostZ", lambda a, v=v: v.boostZ(beta=a / 4)), ("boostX-gamma", lambda a, v=v: v.boostX(gamma=1 + a)),
                          ("is_timelike-tol", lambda a, v=v: v.is_timelike(a)), ("boost_beta3-object", lambda a, v=v: v.boost_beta3(vector_obj3(a)))]
+            if kind == "awkward":
+                import awkward as ak
+
+                def proj(a, v=v, dim=dim):
+                    w = ak.with_field(v, v[ak.fields(v)[0]] * 0 + a, where=f"extra{int(a * 16)}")
+                    return (w.to_Vector2D(), w.to_Vector3D() if dim >= 3 else None, w.rotateZ(a))
+                fams.append(("projections-with-differently-named-extra-fields", proj))
             if small:
-                fams = fams[::2]
+                fams = fams[::2] + ([fams[-1]] if kind == "awkward" and fams[-1] not in fams[::2] else [])
             for fname, f in fams:
                 for i in range(nargs):
                     a = 0.125 + 0.0625 * i
@@ -782,6 +802,16 @@ def run_threads(spec, tier, seed, res):
         res.evaluations += 1
         if a != b:
             res.violation("C20/result-depends-on-call-history-or-object-identity", {"call": calls[i][0], "first": repr(a)[:160], "rebuilt": repr(b)[:160]})
+    # ... and in another order: a pure function's result cannot depend on which calls came before it
+    order = list(range(len(calls)))
+    gen.rng(seed, "C20order", spec["rep"]).shuffle(order)
+    reordered = {}
+    for i in reversed(order):
+        reordered[i] = fingerprint(run_one(calls[i][1]))
+    for i, a in enumerate(sequential):
+        res.evaluations += 1
+        if reordered[i] != a:
+            res.violation("C20/result-depends-on-the-order-of-earlier-calls", {"call": calls[i][0], "first": repr(a)[:160], "reordered": repr(reordered[i])[:160]})
     res.cell("history-independence", mode, spec["rep"])
     # ---- instrumentation: intervals per dispatch, yield injection inside vector frames
     intervals = []  # (thread id, module, t_enter, t_exit), appended under the GIL (list.append is atomic)
@@ -958,14 +988,54 @@ print(json.dumps(out))
     res.sample({"part": "threads", "mode": "lazy-import", "results_thread0": outs[0][0] if outs else None})
 
 
+def run_order(spec, tier, seed, res):
+    """order independence across *fresh processes*: the same call list is run by several shards (each shard is a new
+    interpreter), each in its own order; finalize() compares call i between them.  State that freezes at the first call
+    of a process (a module-level table filled by whoever comes first) is invisible inside one process and shows here."""
+    import hashlib
+
+    K = 120 if tier == "quick" else 300
+    lists = [("whole", build_call_list(seed + spec["rep"], K)), ("contend", build_contention_list(seed + spec["rep"], small=True))]
+    for lname, calls in lists:
+        idx = list(range(len(calls)))
+        if spec["order"] == "reverse":
+            idx.reverse()
+        elif spec["order"] != "forward":
+            gen.rng(seed, "C20fresh", spec["order"], spec["rep"]).shuffle(idx)
+        for i in idx:
+            nm, f = calls[i]
+            try:
+                out = f()
+            except Exception as e:
+                out = e
+            res.evaluations += 1
+            fp = hashlib.sha1(repr(fingerprint(out)).encode()).hexdigest()[:16]
+            res.add_to("fresh_process_order", f"{spec['rep']}|{lname}|{i}|{nm}|{spec['order']}|{fp}")
+    res.cell("fresh-process-order", spec["order"], spec["rep"])
+
+
 def run_shard(spec, tier, seed):
     res = Result()
-    {"state": run_state, "register": run_register, "failpoints": run_failpoints, "threads": run_threads}[spec["part"]](spec, tier, seed, res)
+    {"state": run_state, "register": run_register, "failpoints": run_failpoints, "threads": run_threads,
+     "order": run_order}[spec["part"]](spec, tier, seed, res)
     return res
 
 
 def finalize(total, tier, seed):
     c = total.counters
+    by_call = {}
+    for e in total.sets.get("fresh_process_order", ()):
+        rep, lname, i, nm, order, fp = e.split("|")
+        by_call.setdefault((rep, lname, i, nm), {})[order] = fp
+    compared = 0
+    for key, d in sorted(by_call.items()):
+        if len(d) >= 2:
+            compared += 1
+            if len(set(d.values())) > 1:
+                total.violation("C20/result-depends-on-the-order-of-calls-in-a-fresh-process", {"call": key[3], "list": key[1], "orders": d})
+    c["fresh_process_order_calls_compared"] = compared
+    if compared < 100:
+        total.inconc(f"only {compared} calls compared between fresh processes running them in different orders")
     if c.get("dispatch_brackets", 0) < 5000:
         total.inconc(f"only {c.get('dispatch_brackets', 0)} dispatches were bracketed by the state hook")
     if c.get("dispatch_brackets_on_exception", 0) < 1:
